@@ -38,6 +38,10 @@ pub struct Mutate {
     /// recompose: `v`
     pub cell: String,
     pub coeff: usize,
+    /// record cells only: a second coefficient of the same value receives `-delta` (a deviation that keeps the SUM of the
+    /// coefficients, for constraints that aggregate limbs); negative / absent = none
+    #[serde(default)]
+    pub coeff2: Option<i64>,
 }
 
 #[derive(Clone, Debug, Serialize, Deserialize)]
@@ -377,7 +381,8 @@ where
         _ => ("single".to_string(), String::new()),
     };
     let cover = format!("{}-{}-{}", case.ops[mu.op], mu.cell, if form == "single" { "single" } else { "packed" });
-    let shape = format!("{}-{}+{}{}", case.ops[mu.op], mu.cell, form, step);
+    let pair = if mu.coeff2.map_or(false, |c| c >= 0) { "+limb-pair" } else if mu.coeff > 0 { "+upper-limb" } else { "" };
+    let shape = format!("{}-{}+{}{}{}", case.ops[mu.op], mu.cell, form, step, pair);
     let delta: F = loop {
         let x: F = rbase(rng);
         if x != F::ZERO {
@@ -399,6 +404,12 @@ where
         "a" | "b" | "c" | "out" => {
             let ci = ["a", "b", "c", "out"].iter().position(|x| *x == mu.cell).unwrap();
             vals1[mu.op][ci] = add_coeff::<F, EF>(&vals1[mu.op][ci], mu.coeff, delta);
+            if let Some(c2) = mu.coeff2.filter(|c| *c >= 0).map(|c| c as usize) {
+                if c2 >= D || c2 == mu.coeff {
+                    return bad("mutate.coeff2 out of range".into());
+                }
+                vals1[mu.op][ci] = add_coeff::<F, EF>(&vals1[mu.op][ci], c2, -delta);
+            }
             m1 = match guard(|| air.trace_to_matrix::<EF>(&mk_trace(&vals1), 1)) {
                 Ok(m) => m,
                 Err(e) => {
@@ -420,6 +431,33 @@ where
                 return out("unobservable", cover);
             }
             relation_free = matches!((kind, ci), (AluOpKind::Add | AluOpKind::Mul, 2) | (AluOpKind::BoolCheck, 1 | 2));
+        }
+        "a_out" | "b_out" | "c_out" => {
+            // two cells of ONE row deviate together by the same amount (an operand and the result): the row stays inside the
+            // relation for Add (a / b) and MulAdd (c), leaves it everywhere else - in particular a BoolCheck row whose
+            // operand is not a bit although `out` still equals `a`
+            if matches!(unit, Some((_, k)) if k >= 2) {
+                return out("not_applicable", cover);
+            }
+            let ci = ["a_out", "b_out", "c_out"].iter().position(|x| *x == mu.cell).unwrap();
+            for cell in [ci, 3] {
+                vals1[mu.op][cell] = add_coeff::<F, EF>(&vals1[mu.op][cell], mu.coeff, delta);
+                if let Some(c2) = mu.coeff2.filter(|c| *c >= 0).map(|c| c as usize) {
+                    if c2 >= D || c2 == mu.coeff {
+                        return bad("mutate.coeff2 out of range".into());
+                    }
+                    vals1[mu.op][cell] = add_coeff::<F, EF>(&vals1[mu.op][cell], c2, -delta);
+                }
+            }
+            m1 = match guard(|| air.trace_to_matrix::<EF>(&mk_trace(&vals1), 1)) {
+                Ok(m) => m,
+                Err(e) => {
+                    return Outcome { finding: Some(finding("air-panics", format!("trace-to-matrix+{shape}"), json!({"case": cj, "panic": e}))), ..out("finding", cover) };
+                }
+            };
+            if m1.values == m0.values {
+                return out("unobservable", cover);
+            }
         }
         "sep_out" => {
             if !b.chain_first[mu.op] {
@@ -784,7 +822,7 @@ pub fn cmd_gen(args: &[String]) -> i32 {
                         };
                         for cell in ["a", "b", "c", "out"] {
                             for &coeff in &coeffs {
-                                emit(&mut w, &Case { mutate: Some(Mutate { op: i, cell: cell.into(), coeff }), ..base.clone() });
+                                emit(&mut w, &Case { mutate: Some(Mutate { op: i, cell: cell.into(), coeff, coeff2: None }), ..base.clone() });
                             }
                         }
                         if name == "HornerAcc" {
@@ -795,7 +833,7 @@ pub fn cmd_gen(args: &[String]) -> i32 {
                             }
                             for cell in cells {
                                 for &coeff in &[0, d - 1][..if d == 1 { 1 } else { 2 }] {
-                                    emit(&mut w, &Case { mutate: Some(Mutate { op: i, cell: cell.into(), coeff }), ..base.clone() });
+                                    emit(&mut w, &Case { mutate: Some(Mutate { op: i, cell: cell.into(), coeff, coeff2: None }), ..base.clone() });
                                 }
                             }
                         }
@@ -810,7 +848,7 @@ pub fn cmd_gen(args: &[String]) -> i32 {
                     emit(&mut w, &base);
                     for i in 0..n {
                         for coeff in 0..d {
-                            emit(&mut w, &Case { mutate: Some(Mutate { op: i, cell: "v".into(), coeff }), ..base.clone() });
+                            emit(&mut w, &Case { mutate: Some(Mutate { op: i, cell: "v".into(), coeff, coeff2: None }), ..base.clone() });
                         }
                     }
                 }
